@@ -104,33 +104,38 @@ Definition body_fuel (b : body) : nat := sfuel (body_src b).
 (* what remains of the inbound stream once the body reader is dropped: the BufReader's buffer and
    the unread part of the leftover slice are gone *)
 Definition after_drop (b : body) : list bytes := segs (body_src (drain (body_fuel b) b)).
+(* (fix F21) did the discard reach the end of the body?  [failed]: an earlier read of this reader has failed (the reader
+   remembers it and does not try again) *)
+Definition located (failed : bool) (b : body) : bool := negb failed && drain_ok (body_fuel b) b.
 
 Definition reader_payload (n : N) : bytes :=
   map (fun i => n2b (97 + N.of_nat i mod 26)) (seq 0 (N.to_nat n)).
 
-(* one handler call: responses emitted, handler result (true = Ok), remaining stream *)
-Definition run_handler (a : app) (r : request) (b : body) : list response_ev * bool * list bytes :=
+(* one handler call: responses emitted, handler result (true = Ok), remaining stream, and whether the end of the body was
+   reached when the reader was dropped (fix F21: if not, the connection is closed after the response) *)
+Definition run_handler (a : app) (r : request) (b : body) : list response_ev * bool * list bytes * bool :=
   let resp st body cl := {| rs_status := st; rs_body := body; rs_close := cl |} in
   match behaviour_of a r with
   | BAll =>
       match read_to_end (body_fuel b) b [] with
-      | (inl data, b') => ([resp 200%N (describe a r data) false], true, after_drop b')
-      | (inr _, b') => ([], false, after_drop b')
+      | (inl data, b') => ([resp 200%N (describe a r data) false], true, after_drop b', located false b')
+      | (inr _, b') => ([], false, after_drop b', false)
       end
   | BReadK k =>
       match read_k (body_fuel b) k b [] with
-      | (inl data, b') => ([resp 200%N (describe a r data) false], true, after_drop b')
-      | (inr _, b') => ([], false, after_drop b')
+      | (inl data, b') => ([resp 200%N (describe a r data) false], true, after_drop b', located false b')
+      | (inr _, b') => ([], false, after_drop b', false)
       end
-  | BNone st => ([resp st (describe a r []) false], true, after_drop b)
+  | BNone st => ([resp st (describe a r []) false], true, after_drop b, located false b)
   | BFirst =>
-      let '(_, b') := read_to_end (body_fuel b) b [] in
-      ([resp 200%N (describe a r []) false], true, after_drop b')
-  | BHold => ([resp 200%N (describe a r []) false], true, after_drop b)
-  | BErr => ([], false, after_drop b)
-  | BErrAfter => ([resp 200%N (describe a r []) false], false, after_drop b)
-  | BClose => ([resp 200%N (describe a r []) true], true, after_drop b)
-  | BReader n => ([resp 200%N (reader_payload n) false], true, after_drop b)
+      (* the handler swallows a read error; the reader remembers it *)
+      let '(res, b') := read_to_end (body_fuel b) b [] in
+      ([resp 200%N (describe a r []) false], true, after_drop b', located (match res with inr _ => true | inl _ => false end) b')
+  | BHold => ([resp 200%N (describe a r []) false], true, after_drop b, located false b)
+  | BErr => ([], false, after_drop b, located false b)
+  | BErrAfter => ([resp 200%N (describe a r []) false], false, after_drop b, located false b)
+  | BClose => ([resp 200%N (describe a r []) true], true, after_drop b, located false b)
+  | BReader n => ([resp 200%N (reader_payload n) false], true, after_drop b, located false b)
   end.
 
 (* ------------------------------------------------------------------ handle_one_request *)
@@ -163,14 +168,14 @@ Definition handle_one_request (a : app) (max_head : nat) (ka : bool) (sg : list 
       match hook_of a r with
       | HAnswer =>
           {| o_resps := [{| rs_status := 200; rs_body := bs "hook"; rs_close := false |}];
-             o_keep := ka && negb client_close; o_ok := true; o_rest := after_drop b; o_hooked := true; o_eof := false |}
+             o_keep := ka && negb client_close && located false b; o_ok := true; o_rest := after_drop b; o_hooked := true; o_eof := false |}
       | HAnswerClose =>
           {| o_resps := [{| rs_status := 200; rs_body := bs "hook"; rs_close := true |}];
              o_keep := false; o_ok := true; o_rest := after_drop b; o_hooked := true; o_eof := false |}
       | HProceed =>
-          let '(resps, ok, rest) := run_handler a r b in
+          let '(resps, ok, rest, loc) := run_handler a r b in
           let ka' := ka && negb (existsb rs_close resps) in
-          {| o_resps := resps; o_keep := ok && negb client_close && ka'; o_ok := ok; o_rest := rest; o_hooked := true; o_eof := false |}
+          {| o_resps := resps; o_keep := ok && negb client_close && ka' && loc; o_ok := ok; o_rest := rest; o_hooked := true; o_eof := false |}
       end
   end.
 
